@@ -293,6 +293,29 @@ impl<'r> World<'r> {
             let Some(p) = e.proxy.as_ref() else { return Outcome::Panic("harness: no proxy glue".into()) };
             let addr = Addr::unchecked(c.addr.clone());
             let new_code = self.code_ids.get(t.code).copied().unwrap_or(9999);
+            // two calls in three go through the `Proxy` value that the instantiation returned (kept by
+            // the code that made it, usable while the contract still runs that program); the choice is
+            // a function of the operation alone, so that minimising a plan does not move it
+            let pick = args.iter().fold(t.hid.len() as u32 + t.sender.len() as u32, |h, b| h.wrapping_mul(31).wrapping_add(*b as u32));
+            let kept = if pick % 3 != 0 {
+                let mut r = None;
+                for (i, pc) in self.pcodes.iter().enumerate() {
+                    let (Some(pc), Some(k)) = (pc, self.codes.get(i)) else { continue };
+                    if k.cid != c.cid {
+                        continue;
+                    }
+                    if let Some(o) = guarded_opt(|| pc.call_kept(&addr, &t.hid, &args, funds.as_deref(), &sender, new_code)) {
+                        r = Some(o);
+                        break;
+                    }
+                }
+                r
+            } else {
+                None
+            };
+            if let Some(o) = kept {
+                o
+            } else {
             match p {
                 rt::proxy::ProxyFns::E { call, .. } => {
                     let Some(app) = self.app_static() else { return Outcome::Panic("harness: wrong chain".into()) };
@@ -304,6 +327,7 @@ impl<'r> World<'r> {
                     let call = *call;
                     guarded(|| call(app, &addr, &t.hid, &args, funds.as_deref(), &sender, new_code))
                 }
+            }
             }
         };
         match out {
@@ -670,6 +694,14 @@ pub(crate) fn guarded<T>(f: impl FnOnce() -> T) -> Result<T, String> {
     match catch_unwind(AssertUnwindSafe(f)) {
         Ok(v) => Ok(v),
         Err(_) => Err(PANIC_MSG.with(|p| p.borrow().clone())),
+    }
+}
+
+fn guarded_opt<T>(f: impl FnOnce() -> Option<T>) -> Option<Result<T, String>> {
+    match guarded(f) {
+        Ok(None) => None,
+        Ok(Some(o)) => Some(Ok(o)),
+        Err(p) => Some(Err(p)),
     }
 }
 
